@@ -163,6 +163,11 @@ def main():
                 done.add(json.loads(l)['id'])
             except Exception:
                 pass
+    if '--ids' in a:
+        ids = set(a[a.index('--ids') + 1].split(','))
+        allm = [json.loads(l) for l in open(mutfile)]
+        muts = [m for m in allm if m['id'] in ids]
+        done = set()
     todo = [m for m in muts if m['id'] not in done]
     print('mutants %d, done %d, todo %d, workers %d' % (len(muts), len(done), len(todo), K), flush=True)
     q = queue.Queue()
